@@ -334,7 +334,7 @@ static KV genCase()
     genGeometryParams(s);
     if (rint(0, 2) == 0)
         s.Rmax = runi(0.5, 2.0);
-    s.alpha_jump = s.Rmax * runi(0.3, 0.9);
+    s.alpha_jump = rint(0, 5) == 0 ? 0.0 : s.Rmax * runi(0.3, 0.9); // 0 is the command-line default of --alpha_jump
     s.R0         = s.Rmax * rpick({1e-5, 1e-3, 1e-2, 0.1});
     s.put(c);
     if (rbool()) {
